@@ -1,4 +1,6 @@
 import Percival.Proofs.AllocFail
+import Percival.Proofs.AFUTop
+import Percival.Proofs.AFUAcct
 /-!
 # C14 — allocation failure is reported, leaves objects unchanged and leaks nothing (proof-level part)
 
@@ -7,8 +9,11 @@ timer queue with their storage; `Model/Heap.lean` of C13 is wrapped, not edited)
 registration).  Every allocation goes through the oracle `Mem`; the theorems hold for **every** oracle,
 i.e. for the failure of the 1st, 2nd, … k-th request alone or persistently, and for any other pattern.
 `Mem.live` counts the blocks currently allocated, `Mem.refusals` the refused requests; `bufBlocks a` is 1
-if the array has a buffer.  The upper layers (network_read/write, netbuf, HTTP, asprintf users) have no
-Lean failure model: they are covered by fault enumeration against the monitor only (see notes/C14.md).
+if the array has a buffer.  The **start / registration / teardown paths** of the upper layers (network_read,
+network_write, network_accept, network_connect(_timeo), netbuf reader and writer, the set-up ladder of
+http_request) have the failure model `Model/AllocFail.lean` (last section of this file); what happens to such a
+request *after* it was started (callbacks, the HTTP response parser) and the asprintf users are covered by fault
+enumeration against the monitor only (see notes/C14.md).
 -/
 namespace Percival.C14
 open Percival.Model Percival.Spec.DS
@@ -243,5 +248,161 @@ theorem imm_register_retry (e : EvReg.Ev) (id prio : Nat) (m : Mem) (hg : ∀ n 
   imm_succeeds_when_granted e id prio m hg
 
 example : ∀ n sz, Mem.grantAll.n ≤ n → Mem.grantAll.f n sz = true := fun _ _ _ => rfl
+
+/-! ## Upper layers: start, registration and teardown paths (`Model/AllocFail.lean`)
+
+`World` = the oracle, the event layer (`Model/EvReg`, unchanged), the two cookie pools, the explicit list `live` of
+blocks owned by objects (tagged by allocation site), the blocks parked in the pools (`cache`), the tables of live
+objects and the counter `bad` (double frees / cancels of something not registered).  `stepR w op` is one library
+call with its outcome `ok | fail | contract`; `Inv w` (Proofs/AllocFailUpper.lean) says: `live` is exactly what
+the objects own, the event layer's registry holds exactly the registrations of the live objects, `bad = 0`, the
+pools agree with `cache`, the wrapper's block counter `Mem.live` is `|live| + |cache| + evLive`, plus the event
+layer's own invariants (C04's on the socket table, C13's on the timer queue).  Everything below holds for
+**every** oracle, every world satisfying `Inv` — in particular every world reachable from the empty one — and
+all arguments. -/
+
+open Percival.Model.AllocFail Percival.Proofs.AllocFailUpper
+open Percival.Proofs.EvRegTimer (Granted)
+
+/-- the empty world under the oracle that refuses everything / grants everything / refuses only the third request -/
+def wRefuse : World := { m := Mem.refuseAll }
+def wGrant : World := { m := Mem.grantAll }
+def wThird : World := { m := { f := fun n _ => n != 2 } }
+
+/-- **The invariant holds in every reachable world**: whatever sequence of calls is made from the empty world
+(successes, failures, calls outside the contract), under whatever oracle. -/
+theorem upper_invariant_reachable (m : Mem) (hm : m.live = 0) (ops : List Op) : Inv (run { m := m } ops) :=
+  run_inv _ ops (inv_init m hm)
+
+example : Mem.refuseAll.live = 0 ∧ wThird.m.live = 0 := ⟨rfl, rfl⟩
+
+/-- **(a) A refused request is reported**: if any allocation consulted during a call that can fail is refused,
+the call returns its failure value (NULL / -1). -/
+theorem upper_failure_reported (w : World) (op : Op) (h : Inv w) (hs : isRelease op = false)
+    (hr : (stepR w op).2.m.refusals ≠ w.m.refusals) : (stepR w op).1 = .fail :=
+  stepR_refused_fails w op h hs hr
+
+/-- the third request of `network_read` on descriptor 5 (the socket list's buffer) is refused: NULL -/
+example : (stepR wThird (.read 5)).2.m.refusals ≠ wThird.m.refusals ∧ (stepR wThird (.read 5)).1 = .fail := by decide
+example : (stepR wThird (.connect [.failNow, .success] (some 1000) 7)).1 = .fail := by decide
+example : (stepR wRefuse (.nbrInit 3)).1 = .fail ∧ (stepR wRefuse (.http [.success] 47 9)).1 = .fail := by decide
+
+/-- **(b) A failed call leaves nothing registered and loses nothing**: the registry is exactly what it was, no
+block was freed twice, the invariant holds (so every live block is still owned by an object); for the calls
+that do nothing before their last allocation (`isAtomic`: all but `netbuf_read_wait`, `netbuf_write_consume`,
+`netbuf_write_write`) the blocks owned by objects, every object table and the registry are **exactly** what they
+were (`Same`). -/
+theorem upper_failure_leaves_nothing (w : World) (op : Op) (h : Inv w) (hf : (stepR w op).1 = .fail) :
+    EvReg.registry (stepR w op).2.ev = EvReg.registry w.ev ∧ (stepR w op).2.bad = 0 ∧ Inv (stepR w op).2 ∧
+    (isAtomic op = true → Same w (stepR w op).2) :=
+  ⟨(stepR_fail_registry w op h hf).1, (stepR_fail_registry w op h hf).2.1, stepR_inv w op h,
+   fun ha => stepR_fail_same w op h ha hf⟩
+
+example : (stepR wThird (.read 5)).1 = .fail ∧ (stepR wThird (.read 5)).2.live = [] ∧
+    (stepR wThird (.read 5)).2.reads = [] ∧ (EvReg.registry (stepR wThird (.read 5)).2.ev).net = [] := by decide
+
+/-- **A failure of a call within its contract comes from a refused request** (the descriptor's slot is free,
+the object named exists and is idle: `Ready`) — the L1 rule of the monitor. -/
+theorem upper_failure_needs_refusal (w : World) (op : Op) (h : Inv w) (hrdy : Ready w op)
+    (hf : (stepR w op).1 = .fail) : w.m.refusals < (stepR w op).2.m.refusals :=
+  stepR_fail_refused w op h hrdy hf
+
+/-- **(b, continued) The same registration can be made again**: after a failure the call is still within its
+contract, and as soon as the allocator grants what is asked it succeeds; for the atomic calls it runs on exactly
+the objects and registrations of before the failed attempt (`Same`), i.e. as if that attempt had never happened.
+(`netbuf_write_consume` is excepted: its reservation is consumed even when starting the transfer fails; the data
+stays queued and the next write or consume starts the transfer.) -/
+theorem upper_retry_succeeds (w : World) (op : Op) (h : Inv w) (hrdy : Ready w op) (hf : (stepR w op).1 = .fail)
+    (hc : ∀ x len, op ≠ .nbwConsume x len) (hg : Granted (stepR w op).2.m) :
+    (stepR (stepR w op).2 op).1 = .ok ∧ Ready (stepR w op).2 op ∧ (isAtomic op = true → Same w (stepR w op).2) :=
+  ⟨stepR_granted_ok _ op (stepR_inv w op h) (ready_after_fail w op h hrdy hf hc) hg, ready_after_fail w op h hrdy hf hc,
+   fun ha => stepR_fail_same w op h ha hf⟩
+
+/-- `network_read` fails on its third request; after it the oracle grants everything; the retry succeeds and the
+world then holds one read cookie, one read, one registration -/
+example : Granted (stepR wThird (.read 5)).2.m := fun n sz hn => by
+  have : (stepR wThird (.read 5)).2.m.n = 3 := by decide
+  have hf := (stepR_step wThird (.read 5) (inv_init _ rfl)).f
+  rw [this] at hn; rw [hf]; simp [wThird]; omega
+example : (stepR wThird (.read 5)).1 = .fail ∧ (stepR (stepR wThird (.read 5)).2 (.read 5)).1 = .ok ∧
+    ((stepR (stepR wThird (.read 5)).2 (.read 5)).2.live.map (·.site)) = [Site.rdCookie] ∧
+    (EvReg.registry (stepR (stepR wThird (.read 5)).2 (.read 5)).2.ev).net.length = 1 := by decide
+example : Ready wThird (.read 5) := ⟨fun ⟨_, hm⟩ => by simp [Proofs.EvRegNet.regNet, EvReg.registry, wThird, EvReg.netOf] at hm, by decide⟩
+
+/-- **(d) Releases cannot fail**: a cancel / free of an object that exists (and is released by its owner) is
+carried out under every oracle — also the one refusing everything —, the object and what it held are gone, and
+the invariant holds afterwards (in particular `bad = 0`: every `events_*_cancel` inside found its registration,
+every `free` its block). -/
+theorem upper_release_cannot_fail (w : World) (op : Op) (h : Inv w) (hp : Present w op) :
+    (stepR w op).1 = .ok ∧ gone w (stepR w op).2 op ∧ Inv (stepR w op).2 :=
+  ⟨(stepR_release_ok w op h hp).1, (stepR_release_ok w op h hp).2, stepR_inv w op h⟩
+
+example : Present (stepR wGrant (.connect [.success] (some 5) 7)).2 (.connectCancel 0) :=
+  ⟨⟨⟨0, some 7, true, false⟩, by decide, rfl⟩, by decide⟩
+
+/-- a connect with a timeout is started while memory is granted, then every request is refused: the cancel goes
+through (timer, registration, cookie) -/
+example : let w1 := (stepR wGrant (.connect [.success] (some 5) 7)).2
+    let w2 : World := { w1 with m := { w1.m with f := fun _ _ => false } }
+    (stepR w2 (.connectCancel 0)).1 = .ok ∧ (stepR w2 (.connectCancel 0)).2.live = [] ∧
+    EvReg.registry (stepR w2 (.connectCancel 0)).2.ev = EvReg.registry ({} : EvReg.Ev) := by decide
+
+/-- **(d, continued) The upper layers' release code asks for no memory**: with room in the pools' caches (so
+`mpool_free` never takes its slow path — its one possible request, whose refusal is harmless) `network_read_cancel`,
+`network_write_cancel`, `network_accept_cancel` and `netbuf_read_free` do not consult the allocator at all. -/
+theorem upper_release_no_consultation (w : World) (op : Op) (h : Inv w) (hp : Present w op)
+    (hrec : w.ev.recPool.stacklen < w.ev.recPool.allocsize) (hrd : w.rdPool.stacklen < w.rdPool.allocsize)
+    (hwr : w.wrPool.stacklen < w.wrPool.allocsize)
+    (hop : (∃ c, op = .readCancel c) ∨ (∃ c, op = .writeCancel c) ∨ (∃ c, op = .acceptCancel c) ∨ (∃ r, op = .nbrFree r)) :
+    (stepR w op).2.m.n = w.m.n :=
+  stepR_release_no_consultation w op h hp hrec hrd hwr hop
+
+example : let w1 := (stepR wGrant (.read 5)).2
+    Present w1 (.readCancel 0) ∧ (stepR w1 (.readCancel 0)).2.m.n = w1.m.n := by
+  refine ⟨⟨⟨⟨0, 5⟩, by decide, rfl⟩, by decide⟩, by decide⟩
+
+/-- **(c) Nothing is leaked, whatever preceded**: after ANY sequence of calls from the empty world — successes,
+failures at any request, under any oracle — releasing the objects with their normal free / cancel calls
+(`teardown`) leaves no block owned by an object, no object, nothing registered (no immediate event, no timer, no
+descriptor), no double free; the pools' exit handlers then empty the cache, and what the allocator still counts as
+live belongs to the event layer alone (`evLive`) — which its own exit handlers release: `upper_exit_handlers_free_everything`. -/
+theorem upper_leaks_nothing (m : Mem) (hm : m.live = 0) (ops : List Op) :
+    let w := teardown (run { m := m } ops)
+    Inv w ∧ w.live = [] ∧ tables w = ⟨[], [], [], [], [], [], []⟩ ∧
+    Proofs.EvRegNet.regNet w.ev = [] ∧ Proofs.EvRegTimer.regTimers w.ev = [] ∧ (Proofs.EvRegTimer.regImm w.ev).flatten = [] ∧
+    w.bad = 0 ∧ (atexitPools w).cache = [] ∧ (atexitPools w).live = [] ∧ (atexitPools w).m.live = (atexitPools w).evLive := by
+  intro w
+  have hi : Inv (run { m := m } ops) := run_inv _ ops (inv_init m hm)
+  obtain ⟨hw, ht, _⟩ := teardown_spec _ hi
+  obtain ⟨h1, h2, h3, h4⟩ := empty_tables_nothing w hw.toInv0 ht
+  obtain ⟨hx, hc, hl, _, _, _, _, _, _, _, _, _⟩ := atexitPools_partial w hw.toInv0
+  refine ⟨hw, h1, ht, h2, h3, h4, hw.bad0, hc, by rw [hl, h1], ?_⟩
+  have ha := hx.acct
+  simp only [forgetDyn] at ha
+  rw [hc, hl, h1] at ha
+  simpa using ha
+
+/-- **(c, completed) After the objects are released, the exit handlers free everything the library ever allocated**:
+from the empty world, after any sequence of calls under any oracle, `teardown` followed by all `atexit` handlers
+(both cookie pools, `events_timer_shutdown`, `events_network_shutdown`, the event-record and queue-node pools)
+leaves the allocator's count of live library blocks — what the harness' wrapper counts and prints as `end live=` — at
+exactly 0.  (The event layer's storage is counted exactly by `EvRegAcct.evBlocks`: cached pool objects and stack
+arrays, 2 blocks per immediate event, 3 per timer, 1 per descriptor registration, the timer queue, the socket list and
+the pollfd array; every event-layer operation changes `Mem.live` by exactly the change of that count.) -/
+theorem upper_exit_handlers_free_everything (m : Mem) (hm : m.live = 0) (ops : List Op) :
+    (atexitAll (teardown (run { m := m } ops))).m.live = 0 ∧
+    (atexitAll (teardown (run { m := m } ops))).live = [] ∧ (atexitAll (teardown (run { m := m } ops))).cache = [] :=
+  run_teardown_atexit_no_leak m hm ops
+
+/-- the same seven calls as below, then everything released and the exit handlers run: 18 library blocks were live -/
+example : (run wThird [.read 5, .read 5, .nbrInit 6, .nbrWait 6 100, .nbwInit 7, .nbwWrite 11 10, .http [.success] 47 9]).m.live = 18 ∧
+    (atexitAll (teardown (run wThird [.read 5, .read 5, .nbrInit 6, .nbrWait 6 100, .nbwInit 7, .nbwWrite 11 10, .http [.success] 47 9]))).m.live = 0 := by
+  decide
+
+/-- a read, a buffered reader waiting for 100 bytes, a writer with queued data and an HTTP request, under the
+oracle that refuses the third request: six objects' worth of blocks before, nothing after -/
+example : (run wThird [.read 5, .read 5, .nbrInit 6, .nbrWait 6 100, .nbwInit 7, .nbwWrite 11 10, .http [.success] 47 9]).live.length = 11 ∧
+    (teardown (run wThird [.read 5, .read 5, .nbrInit 6, .nbrWait 6 100, .nbwInit 7, .nbwWrite 11 10, .http [.success] 47 9])).live = [] := by
+  decide
 
 end Percival.C14
